@@ -34,6 +34,8 @@ type Case struct {
 	// announces the accepted user when this connection does not, and a stranger otherwise: whose
 	// credentials are checked must not depend on who else is logging in.
 	Neighbour string `json:"neighbour,omitempty"`
+	// ViaFields: Server.Auth (and TLSConfig) assigned after NewServer instead of passed as options
+	ViaFields bool `json:"via_fields,omitempty"`
 }
 
 func (c Case) neighbour(env *script.Env) {
@@ -112,7 +114,10 @@ func Run(c Case) core.Result {
 		res.Labels = append(res.Labels, "nonaccept+continuation")
 	}
 
-	cfg := script.Config{Auth: &c.Auth, Table: table(), SetLimit: true, Limit: c.Limit, OptSeed: c.OptSeed}
+	cfg := script.Config{Auth: &c.Auth, Table: table(), SetLimit: true, Limit: c.Limit, OptSeed: c.OptSeed, ViaFields: c.ViaFields}
+	if c.ViaFields {
+		res.Labels = append(res.Labels, "configured-through-exported-fields")
+	}
 	for i := 0; i < c.NMW; i++ {
 		cfg.MWs = append(cfg.MWs, script.MW{})
 	}
